@@ -36,6 +36,12 @@ impl Drop for DespawnTracker
     }
 }
 
+#[cfg(feature = "verif")]
+pub(crate) fn verif_has_despawn_tracker(world: &World, entity: Entity) -> bool
+{
+    world.get::<DespawnTracker>(entity).is_some()
+}
+
 //-------------------------------------------------------------------------------------------------------------------
 //-------------------------------------------------------------------------------------------------------------------
 
